@@ -157,6 +157,87 @@ theorem translateTetra_sign_source (order env : List Nat) (isH : Nat → Bool) (
     translateTetra order env isH none none = .error .keyError := by
   constructor <;> simp [translateTetra, pickSign, bind, Except.bind]
 
+/-! ### error branches -/
+
+/-- a triple of indices below 4 is a key of the table iff it is injective -/
+theorem tetra_key_iff_injective : ∀ a < 4, ∀ b < 4, ∀ c < 4,
+    ((tetrahedronTranslate.lookup (a, b, c)).isSome = true ↔ (a ≠ b ∧ a ≠ c ∧ b ≠ c)) := by decide
+
+
+/-- exactly when does the four-neighbour call succeed: `env` has 3 or 4 entries and its first three are distinct
+neighbours; every other input raises (`ValueError` for a wrong length or a foreign atom, `KeyError` for a repeated one) -/
+theorem translateTetra_ok_iff4 (order : List Nat) (hlen : order.length = 4) (env : List Nat)
+    (isH : Nat → Bool) (st : Option Bool) (s : Bool) :
+    (∃ r, translateTetra order env isH st (some s) = .ok r) ↔
+      ((env.length = 3 ∨ env.length = 4) ∧ (env.take 3).Nodup ∧ ∀ x ∈ env.take 3, x ∈ order) := by
+  have h3 : order.length ≠ 3 := by omega
+  by_cases hl : env.length = 3 ∨ env.length = 4
+  · obtain ⟨x, y, z, rest, rfl⟩ : ∃ x y z rest, env = x :: y :: z :: rest := by
+      match env, hl with
+      | [x, y, z], _ => exact ⟨x, y, z, [], rfl⟩
+      | [x, y, z, w], _ => exact ⟨x, y, z, [w], rfl⟩
+    have hl' : ¬ ((x :: y :: z :: rest).length ≠ 3 ∧ (x :: y :: z :: rest).length ≠ 4) := by
+      intro ⟨a, b⟩; rcases hl with h | h <;> contradiction
+    simp only [translateTetra, pickSign, tetraOrder, h3, if_false, hl', tetraLookup, bind, Except.bind, pure, Except.pure]
+    simp only [List.take_succ_cons, List.take_zero, List.nodup_cons, List.mem_cons, List.not_mem_nil, or_false,
+      not_or, List.nodup_nil, and_true, not_false_eq_true, forall_eq_or_imp, forall_eq, hl, true_and]
+    cases hx : index? order x with
+    | none =>
+      have := (index?_none_iff order x).mp hx
+      simp [this]
+    | some a =>
+      cases hy : index? order y with
+      | none =>
+        have := (index?_none_iff order y).mp hy
+        simp [this]
+      | some b =>
+        cases hz : index? order z with
+        | none =>
+          have := (index?_none_iff order z).mp hz
+          simp [this]
+        | some c =>
+          have ha := index?_lt order x a hx; have hb := index?_lt order y b hy; have hc := index?_lt order z c hz
+          rw [hlen] at ha hb hc
+          have mx : x ∈ order := by
+            by_contra hh; rw [(index?_none_iff order x).mpr hh] at hx; cases hx
+          have my : y ∈ order := by
+            by_contra hh; rw [(index?_none_iff order y).mpr hh] at hy; cases hy
+          have mz : z ∈ order := by
+            by_contra hh; rw [(index?_none_iff order z).mpr hh] at hz; cases hz
+          have key := tetra_key_iff_injective a ha b hb c hc
+          simp only [getKey]
+          cases hk : tetrahedronTranslate.lookup (a, b, c) with
+          | none =>
+            simp only [hk, Option.isSome_none, Bool.false_eq_true, false_iff] at key
+            simp only [mx, my, mz, and_true]
+            constructor
+            · intro ⟨r, h⟩; cases h
+            · intro ⟨⟨hxy, hxz⟩, hyz⟩
+              exfalso; apply key
+              refine ⟨fun e => hxy ?_, fun e => hxz ?_, fun e => hyz ?_⟩
+              · subst e; exact index?_inj order x y a hx hy
+              · subst e; exact index?_inj order x z a hx hz
+              · subst e; exact index?_inj order y z b hy hz
+          | some v =>
+            simp only [hk, Option.isSome_some, true_iff] at key
+            obtain ⟨hab, hac, hbc⟩ := key
+            simp only [mx, my, mz, and_true]
+            constructor
+            · intro _
+              refine ⟨⟨fun e => hab ?_, fun e => hac ?_⟩, fun e => hbc ?_⟩
+              · subst e; rw [hx] at hy; injection hy
+              · subst e; rw [hx] at hz; injection hz
+              · subst e; rw [hy] at hz; injection hz
+            · intro _; exact ⟨_, rfl⟩
+  · have hl' : env.length ≠ 3 ∧ env.length ≠ 4 := by
+      constructor <;> intro h <;> exact hl (by simp [h])
+    have e1 : env.length = 3 ↔ False := ⟨hl'.1, False.elim⟩
+    have e2 : env.length = 4 ↔ False := ⟨hl'.2, False.elim⟩
+    simp only [translateTetra, pickSign, tetraOrder, h3, if_false, if_pos hl', bind, Except.bind, e1, e2, or_self, false_and,
+      iff_false]
+    intro ⟨r, h⟩; cases h
+
+
 /-! ## 3. double bonds and allenes -/
 
 /-- `x` occupies slot `k` of the environment `(n0, n1, n2, n3)`; a `None` slot is occupied by any hydrogen -/
@@ -371,6 +452,33 @@ theorem reader_explicit_spec (a b c d : Nat) (hnd : [a, b, c, d].Nodup) (env : L
   simp only [readerTetraSign, this]
   exact translateTetra_perm4 a b c d hnd env hp isH none mark
 
+/-! ## 4b. stereogenicity of ring double bonds -/
+
+/-- the ring rule is exactly "every SSSR ring containing the double bond has at least `minStereoRing` = 8 atoms" -/
+theorem ring_double_bond_rule (d : Bool) (sizes : List Nat) :
+    cisTransStereogenic d true sizes = sizes.all (minStereoRing ≤ ·) := by
+  simp only [cisTransStereogenic, smallRing, minStereoRing, if_true]
+  induction sizes with
+  | nil => rfl
+  | cons x xs ih =>
+    simp only [List.any_cons, List.all_cons, Bool.not_or, ih]
+    congr 1
+    by_cases h : x < 8
+    · have h' : ¬ 8 ≤ x := by omega
+      simp [h, h']
+    · have h' : 8 ≤ x := by omega
+      simp [h, h']
+
+/-- boundary: a ring of 7 is never stereogenic, a ring of 8 always is (a small ring sharing the double bond spoils a large one) -/
+theorem ring_double_bond_boundary (d : Bool) :
+    cisTransStereogenic d true [7] = false ∧ cisTransStereogenic d true [8] = true ∧
+    cisTransStereogenic d true [12, 3] = false ∧ cisTransStereogenic d true [] = true := by
+  cases d <;> decide
+
+/-- outside rings the label is kept iff both ends have two different substituents -/
+theorem chain_double_bond_rule (d : Bool) (sizes : List Nat) : cisTransStereogenic d false sizes = d := by
+  simp [cisTransStereogenic]
+
 /-! ## 5. geometric sign functions over exact integer coordinates -/
 
 theorem sgn_neg (x : Int) : sgn (-x) = -sgn x := by
@@ -419,5 +527,22 @@ theorem allene_sign_sym (mark : Int) (u v w : V2) :
     alleneSign mark u v (2 * v.1 - w.1, 2 * v.2 - w.2) = -alleneSign mark u v w := by
   obtain ⟨ux, uy⟩ := u; obtain ⟨vx, vy⟩ := v; obtain ⟨wx, wy⟩ := w
   refine ⟨?_, ?_⟩ <;> simp only [alleneSign, alleneDot, ← sgn_neg] <;> congr 1 <;> ring
+
+/-- the point with index `i` among four -/
+def sel4 (p0 p1 p2 p3 : V3) : Nat → V3
+  | 0 => p0 | 1 => p1 | 2 => p2 | _ => p3
+
+/-- **the table is the geometry**: for any four points, reading the signed volume `_pyramid_sign(P_l, P_i, P_j, P_k)` through the
+index triple `(i, j, k)` (apex = the index left out) gives the volume of the reference arrangement, negated exactly for the
+triples the regenerated table marks `True` -/
+theorem tetra_table_matches_geometry (p0 p1 p2 p3 : V3) :
+    ∀ e ∈ tetrahedronTranslate,
+      pyramidSign (sel4 p0 p1 p2 p3 (missing4 e.1.1 e.1.2.1 e.1.2.2)) (sel4 p0 p1 p2 p3 e.1.1) (sel4 p0 p1 p2 p3 e.1.2.1)
+        (sel4 p0 p1 p2 p3 e.1.2.2) = (if e.2 then -1 else 1) * pyramidSign p3 p0 p1 p2 := by
+  obtain ⟨ax, ay, az⟩ := p0; obtain ⟨bx, byy, bz⟩ := p1; obtain ⟨cx, cy, cz⟩ := p2; obtain ⟨dx, dy, dz⟩ := p3
+  simp only [tetrahedronTranslate, List.forall_mem_cons, List.not_mem_nil, false_implies, implies_true, and_true]
+  refine ⟨?_, ?_, ?_, ?_, ?_, ?_, ?_, ?_, ?_, ?_, ?_, ?_, ?_, ?_, ?_, ?_, ?_, ?_, ?_, ?_, ?_, ?_, ?_, ?_⟩ <;>
+    simp only [missing4, Nat.reduceSub, sel4, pyramidSign, pyramidVol, if_true, if_false, Bool.false_eq_true, one_mul, neg_one_mul, ← sgn_neg] <;>
+    congr 1 <;> ring
 
 end ChythonModel.Props.C12
